@@ -180,8 +180,27 @@ func notifierConf(spec string) (out string) {
 				viper.Set(root+key, unhexName(p[6+i]))
 			}
 		}
+		// extras reach the templates exactly as configured, whatever characters they contain
+		// (a copy: viper hands the very map it was given on to the module, which may write into it)
+		given := map[string]interface{}{}
+		for k, v := range nconfExtras {
+			given[k] = v
+		}
+		viper.Set(root+"extras", given)
 	}
 	n := verifhook.ConfigureNotifier(&protocol.ApplicationContext{Logger: zap.NewNop()})
+	ex := "ok"
+	for _, name := range names {
+		got := n.ModuleExtras()[name]
+		if len(got) != len(nconfExtras) {
+			ex = "changed"
+		}
+		for k, v := range nconfExtras {
+			if got[k] != v {
+				ex = "changed"
+			}
+		}
+	}
 	lists := n.ModuleLists()
 	sort.Strings(names)
 	var parts, lparts []string
@@ -197,8 +216,11 @@ func notifierConf(spec string) (out string) {
 			bit(viper.GetBool(root+"send-once")), bit(viper.GetBool(root+"send-close"))))
 		lparts = append(lparts, fmt.Sprintf("%s:%s/%s", name, hexName(l[0]), hexName(l[1])))
 	}
-	return fmt.Sprintf("conf min=%d mods=%s lists=%s", n.MinInterval(), strings.Join(parts, ";"), strings.Join(lparts, ";"))
+	return fmt.Sprintf("conf min=%d mods=%s lists=%s ex=%s", n.MinInterval(), strings.Join(parts, ";"), strings.Join(lparts, ";"), ex)
 }
+
+// nconfExtras: what every module of an `N conf` section is given as extras
+var nconfExtras = map[string]string{"app": "burrow", "api_key": "pa$$w0rd-9f$1c", "dc": "dc$east", "home": "${HOME}/x", "pct": "100%", "price": "US$"}
 
 type recNote struct {
 	module string
